@@ -369,7 +369,8 @@ int ILLsymboltab_register (
 		{
 			ILL_IFTRACE ("register: OLD %s entry#=%d hash=%d\n",
 									 s, h->the_index, h->the_hash);
-			return 0;
+			/* leave through CLEANUP: *the_prev_index is an output on every path */
+			ILL_CLEANUP;
 		}
 
 		rval = add_string (h, s, &symbol);
